@@ -9,6 +9,7 @@ N=${VERIF_SELFTEST_RUNS:-60}
 rc=0
 for id in $IDS; do
 	ref=""
+	idrc=0
 	for procs in 1 4 16; do
 		for rep in 1 2; do
 			out=$(GOMAXPROCS=$procs VERIF_ARGS="{\"mode\":\"dettest\",\"property\":\"$id\",\"tier\":\"quick\",\"seed\":${VERIF_SEED:-1},\"max_runs\":$N}" "$S/runnerA.test" -test.run '^TestSim$' -test.timeout 0 2>&1 | grep -v '^PASS\|^ok' )
@@ -18,12 +19,13 @@ for id in $IDS; do
 				echo "NONDETERMINISM in $id at GOMAXPROCS=$procs rep $rep"
 				diff <(echo "$refout") <(echo "$out") | head -10
 				rc=1
+				idrc=1
 			fi
 		done
 	done
 	lines=$(echo "$refout" | wc -l)
 	bad=$(echo "$refout" | grep -c HARNESS)
-	echo "$id: $lines runs x 6 processes identical=$([ $rc -eq 0 ] && echo yes || echo NO) hash=$ref harness-errors=$bad"
+	echo "$id: $lines runs x 6 processes identical=$([ $idrc -eq 0 ] && echo yes || echo NO) hash=$ref harness-errors=$bad"
 done
 # Stub fidelity: simulated transport vs. a real loopback net/http server (fault-free histories).
 tmp=$(mktemp -d /var/tmp/verif-self-XXXXXX)
